@@ -266,7 +266,10 @@ def check_anam(ctx, py, im, mo, site):
             if t2r_i[k] is not None: site.spec.append(('AnamHermite:undefined-in', 'transformToRawValue(undefined) = %s' % fl(t2r_i[k]))); return
             continue
         m, sabs = unq(t2r_m[k][0]), float(unq(t2r_m[k][1]))
-        site.close('transformToRawValue(%s)' % float(y), t2r_i[k], m, 1e-12 * nb, sabs + abs(float(m)))
+        if t2r_i[k] is None or abs(float(t2r_i[k]) - float(m)) > 1e-12 * nb * (sabs + 2 * abs(float(m))):
+            site.spec.append(('AnamHermite:expansion', 'transformToRawValue(%s) = %s but sum psi_n H_n(y) with the orthonormal Hermite polynomials (and the bounds reported by the object) is %.15g'
+                              % (float(y), fl(t2r_i[k]), float(m))))
+            return
     # --- inverse values
     r2t_i = vd(r2t_i)
     dq = py['dq']
@@ -288,9 +291,10 @@ def check_anam(ctx, py, im, mo, site):
         noise = 1e-12 * nb * (sabs + abs(float(z)))
         if core:
             ctx.dist('anam_query_inverted')
-            if float(unq(marg)) <= 10 * noise or abs(float(ym)) >= 10.0 - 1e-6 or abs(float(iv)) >= 10.0 - 1e-6:
-                # a decision closer to its threshold than the round-off of the double evaluation, or the scan at its last step
-                # (100 * 0.1 accumulated in binary64 is below 10, exactly it is above): excluded
+            sent_m = abs(float(ym)) == 11.0; sent_i = abs(float(iv)) == 11.0
+            if float(unq(marg)) <= 10 * noise or (sent_m != sent_i and min(abs(float(ym)), abs(float(iv))) >= 10.0 - 1e-6):
+                # a decision closer to its threshold than the round-off of the double evaluation, or the scan found its bracket at its
+                # last step (100 * 0.1 accumulated in binary64 is below 10, exactly it is above 10): excluded
                 site.tie = getattr(site, 'tie', 0) + 1; ctx.dist('anam_query_tie'); continue
             if br != []:
                 a, b, za, zb = [float(unq(x)) for x in br]
@@ -415,8 +419,9 @@ def gen_emp(ctx, rng, quick):
         data.append(v if rng.random() > .1 else None)
     if sum(1 for x in data if x is not None) < 2: data[0], data[1] = Fraction(1), Fraction(3)
     act = sorted(x for x in data if x is not None)
-    yq = [Fraction(k, 4) for k in range(-12, 13, 3)] + [Fraction(rng.randint(-300, 300), 64) for _ in range(4)] + [None]
-    zq = [act[rng.randrange(len(act))] for _ in range(4)] + [(act[i] + act[i + 1]) / 2 for i in range(0, len(act) - 1, max(1, len(act) // 4))] + [act[0] - 1, act[-1] + 1, None]
+    yq = [Fraction(k, 4) for k in range(-12, 13, 3)] + [Fraction(rng.randint(-300, 300), 64) for _ in range(8)] + [None]
+    zq = [act[rng.randrange(len(act))] for _ in range(4)] + [(act[i] * 3 + act[i + 1]) / 4 for i in range(0, len(act) - 1, max(1, len(act) // 4))] \
+         + [(act[i] + act[i + 1] * 7) / 8 for i in range(0, len(act) - 1, max(1, len(act) // 3))] + [act[0] - 1, act[-1] + 1, None]
     ctx.dist('emp_' + dist)
     return {'data': data, 'yq': yq, 'zq': zq}, [4, [dy(x) for x in data], [dy(x) for x in yq], [dy(x) for x in zq]]
 
@@ -427,7 +432,7 @@ def emp_model_case(py, im):
 
 def check_emp(ctx, py, im, mo, site):
     data, yq, zq = py['data'], py['yq'], py['zq']
-    rc, ZD, YD, t2r_i, r2t_i, ycol, zcol, az, ay = im
+    rc, ZD, YD, t2r_i, r2t_i, ycol, zcol, az, ay, zq_back = im
     ZD = vd(ZD); YD = vd(YD); act = sorted(x for x in data if x is not None); nd = len(act)
     if ZD != act: site.spec.append(('AnamEmpirical:fit-table', 'ZDisc is not the sorted list of defined data')); return
     for k in range(nd):
@@ -454,6 +459,12 @@ def check_emp(ctx, py, im, mo, site):
         if zc[i] is None or abs(float(zc[i]) - float(z)) > 1e-9 * span:
             site.spec.append(('AnamEmpirical:raw-gaussian-raw-roundtrip', 'sample %d: z = %.12g, y = %s, back %s' % (i, float(z), fl(yc[i]), fl(zc[i])))); return
         site.close('AnamEmpirical data roundtrip model[%d]' % i, zc[i], unq(r2t_m[len(zq) + i][1]), 1e-11, span)
+    # ... and on values between the data (piecewise-linear table read both ways)
+    zb = vd(zq_back)
+    for k, z in enumerate(zq):
+        if z is None or not (act[0] <= z <= act[-1]): continue
+        if zb[k] is None or abs(float(zb[k]) - float(z)) > 1e-9 * span:
+            site.spec.append(('AnamEmpirical:raw-gaussian-raw-roundtrip', 'z = %.12g between the data: y = %s, back %s' % (float(z), fl(r2t_i[k]), fl(zb[k])))); return
     pairs = sorted((float(data[i]), float(yc[i])) for i in range(len(data)) if data[i] is not None)
     for (z1, y1), (z2, y2) in zip(pairs, pairs[1:]):
         if y2 < y1: site.spec.append(('AnamEmpirical:not-monotone', 'z %.9g -> %.9g, z %.9g -> %.9g' % (z1, y1, z2, y2))); return
@@ -509,7 +520,10 @@ def condexp_model_case(py, im):
     return [6, c[1], c[3], [dy(math.sqrt(k)) for k in range(len(c[3]))]]
 
 def check_condexp(ctx, py, im, mo, site):
-    site.close('hermiteCondExpElement(%s, 0, %d coefficients)' % (float(py['y']), py['nb']), undy(im[0]), unq(mo[0]), 1e-12, sum(abs(float(x)) for x in py['psi']) * 50 + 1)
+    v = undy(im[0]); m = unq(mo[0])
+    if v is None or abs(float(v) - float(m)) > 1e-12 * (sum(abs(float(x)) for x in py['psi']) * 50 + 1 + abs(float(m))):
+        site.spec.append(('hermiteCondExpElement:expansion', 'hermiteCondExpElement(%s, 0, %s) = %s, sum psi_n H_n(y) with the orthonormal Hermite polynomials = %.15g'
+                          % (float(py['y']), [float(x) for x in py['psi']], fl(v), float(m))))
 
 # ----------------------------------------------------------------------------- driver
 def run(ctx):
@@ -584,7 +598,7 @@ def run(ctx):
                                       'how': 'bin/check C18 quick with this impl_case as a line of corpus/C18.sx'})
         elif site.drift:
             ndis += 1
-            ctx.violation('model-drift:' + KIND_NAME[py['kind']] + ':' + site.drift[0].split(':')[0].split('[')[0].replace(' ', '-'),
+            ctx.violation('model-drift:' + KIND_NAME[py['kind']] + ':' + site.drift[0].split(':')[0].split('[')[0].split('(')[0].strip().replace(' ', '-'),
                           'impl satisfies the property on this input but differs from the model: ' + '; '.join(site.drift[:4]),
                           {'impl_case': sx_str(py['case']), 'model_case': sx_str(mc), 'correspondence': 'coq/C18/Model.v vs ' + KIND_NAME[py['kind']]}, found_input=False)
     ctx.cov['disagreements'] = ndis
